@@ -64,6 +64,13 @@ def group(name, kind='proof', files=None, functions=None, overrides=None, loopsp
 # ----------------------------------------------------------------------------
 # running one group (in a worker process)
 
+_INCIDENTAL = ('.div_nonzero', '.sqrt_arg_nonneg', '.arccos_arg_range', '.log_arg_positive')
+
+
+def _incidental(stem):
+    return stem.endswith(_INCIDENTAL) or '.no_unexpected_exception(' in stem
+
+
 def _run_group(prop, gname, tier, seed):
     t0 = time.time()
     out = {'group': gname, 'obligations': [], 'paths': 0, 'left_fragment': [], 'unexpected': [], 'files': {},
@@ -452,7 +459,11 @@ def verdict(prop, mod, tier, seed, groups, results, t0, a):
             broken.append('%s: canary/reachability %s is unsatisfiable on every path: vacuous' % (gname, stem))
         else:
             undecided.append('%s: canary %s undecided (%s)' % (gname, stem, obs[0]['detail'][:120]))
-    # vacuity: baseline obligation stems must still be generated
+    # vacuity: baseline obligation stems must still be generated -- except the incidental ones, which exist only because the code performs an operation with a
+    # side condition (division, sqrt, ...) or because a raising path was not pruned before exploration: another arrangement of the same computation, or a better
+    # feasibility answer, legitimately generates none of them
+    if baseline is not None:
+        baseline = set(s_ for s_ in baseline if not _incidental(s_))
     missing = []
     left_any = any(r.get('left_fragment') for r in results)
     if baseline is not None and a.group is None and not broken and left_any:
@@ -479,7 +490,8 @@ def verdict(prop, mod, tier, seed, groups, results, t0, a):
         with open(os.path.join(ROOT, 'obligations', '%s.list' % prop), 'w') as f:
             f.write('# obligation stems discharged on the unchanged tree (tier %s)\n' % tier)
             for s in sorted(proved_stems | keep):
-                f.write(s + '\n')
+                if not _incidental(s):
+                    f.write(s + '\n')
     # --- output
     exit_code = 0
     replay_dir = os.path.join(ROOT, 'replays', prop)
